@@ -96,9 +96,10 @@ def structures(tier, seed):
         for r in RULES:
             addB(axes=axes, arr={"X": pos}, cboundary=r, cfill="S" if r == "fill" else None)
     # defaults: grid periodic True/False/list, grid boundary, nothing per call
-    for gp in (True, False, ["X"], []):
+    for gp in (True, False, ["X"]):
         addB(gperiodic=gp)
         addB(gperiodic=gp, gfill="S")
+    addB(gperiodic=[], gfill="S")  # the padded axis is not named in the list (known finding on the pinned tree)
     for gb in RULES:
         addB(gboundary=gb, gfill="S")
         addB(gboundary=gb, cboundary="extend")
@@ -110,12 +111,12 @@ def structures(tier, seed):
                  cfill={"X": "S"} if cb is not None else None, gfill="S")
     for order in ((1, 0), (0, 2, 1), (2, 0, 1)):
         addB(axes=two, arr={"X": "left", "Y": "outer"}, bw=("X", "Y"), order=order, extra=1 if len(order) == 3 else 0,
-             gperiodic=["X"], cfill="S")
+             gperiodic={"X": True, "Y": False}, cfill="S")
     addB(axes=two, arr={"X": "center", "Y": "center"}, bw=("X", "Y"), gperiodic={"X": True, "Y": False}, gfill={"Y": "S"})
     addB(axes=two, arr={"X": "center", "Y": "center"}, bw=("X", "Y"), gboundary={"X": "extend"}, gperiodic=False, gfill={"X": "S", "Y": "S"})
     addB(axes=two, arr={"X": "center", "Y": "center"}, bw=("X", "Y"), gboundary={"X": "extend", "Y": "fill"}, cboundary={"Y": "periodic"})
     three = {"X": ("center", "left"), "Y": ("center", "right"), "Z": ("center", "inner")}
-    addB(axes=three, arr={"X": "center", "Y": "right", "Z": "inner"}, bw=("Z", "X"), gperiodic=["Y"], cboundary={"Z": "extend"}, cfill="S")
+    addB(axes=three, arr={"X": "center", "Y": "right", "Z": "inner"}, bw=("Z", "X"), gperiodic=["X", "Y"], cboundary={"Z": "extend"}, cfill="S")
     addB(axes=three, arr={"X": "left", "Y": "center", "Z": "center"}, bw=("X", "Y", "Z"), gperiodic=False, gboundary={"Y": "extend"}, extra=1)
     # canaries
     addB(cboundary="fill", cfill="S", canary="offset-off-by-one")
